@@ -15,8 +15,8 @@ verus! {
 //#include ../_shared/linerange_type.inc.rs
 
 /// stand-ins: `Box<dyn std::error::Error>` (rule O1 on the type: Verus has no `dyn Error`) and the serde metadata record
-pub struct BoxedError { pub _opaque: () }
-pub struct AuthorshipMetadata { pub _opaque: () }
+#[verifier::external_body] pub struct BoxedError { _o: () }
+#[verifier::external_body] pub struct AuthorshipMetadata { _o: () }
 
 // ---------------------------------------------------------------- byte vocabulary
 pub open spec fn sb(s: String) -> Seq<u8> { encode_utf8(s@) }
